@@ -216,9 +216,51 @@ def pixel_case(ctx, rng, k):
     ctx.case((fmt, start, n), nontrivial=True, branch="pixel/" + fmt)
 
 
+def flagged_shape_cases(ctx, rng):
+    """Short passes (1-5 lines) on which every line, or every line but one, is flagged: with interpolation on the arrays are
+    still full width and have one row per line (all NaN on the flagged lines), with interpolation off 51 columns."""
+    for fmt in ("klmGac", "klmLac", "podGac", "podLac"):
+        fam, res = FMT[fmt]["family"], FMT[fmt]["res"]
+        for n in (1, 2, 5):
+            for pattern in ("all", "all-but-one"):
+                for interp in (True, False):
+                    start = ydm_to_ms(2000, 322, 40000000) if fam == "pod" else ydm_to_ms(2002, 187, 40000000)
+                    tp = timesgen.TimePass(fmt, list(range(1, n + 1)), start)
+                    b = tp.build(ctx, rng)
+                    flagged = np.ones(n, dtype=bool)
+                    if pattern == "all-but-one":
+                        flagged[rng.randrange(n)] = False
+                    bits = [31, 28, 27] if fam == "klm" else [31, 27, 26]
+                    b.quality[flagged] = [1 << rng.choice(bits) for _ in range(int(flagged.sum()))]
+                    data = b.tobytes()
+                    r = filegen.reader_class(fmt)(tle_dir=filegen.tle_dir(ctx), tle_name="TLE_%(satname)s.txt",
+                                                  interpolate_coords=interp, adjust_clock_drift=False)
+                    r.read(b.dsname, fileobj=io.BytesIO(data))
+                    payload = {"fmt": fmt, "n": n, "pattern": pattern, "interp": interp, "stream": "flagged-shape"}
+                    try:
+                        with warnings.catch_warnings():
+                            warnings.simplefilter("ignore")
+                            lons, lats = r.get_lonlat()
+                    except Exception as e:      # noqa - any exception here is judged
+                        ctx.violation("%s, %d line(s), %s flagged, interpolation %s: get_lonlat raised %s: %s" % (
+                            fmt, n, pattern, interp, type(e).__name__, e), payload, cls="lonlat-raises:%s" % type(e).__name__)
+                        continue
+                    width = 51 if not interp else (409 if res == "gac" else 2048)
+                    lons, lats = np.asarray(lons), np.asarray(lats)
+                    if lons.shape != (n, width) or lats.shape != (n, width):
+                        ctx.violation("%s, %d line(s), %s flagged, interpolation %s: shape %s, expected (%d, %d)" % (
+                            fmt, n, pattern, interp, lons.shape, n, width), payload, cls="shape:flagged")
+                    elif not (np.isnan(lons[flagged]).all() and np.isnan(lats[flagged]).all()):
+                        ctx.violation("%s, %d line(s): coordinates on flagged lines" % (fmt, n), payload, cls="flagged-not-nan")
+                    elif (~flagged).any() and np.isnan(lons[~flagged][:, (4 if res == "gac" else 24) if interp else 0]).any():
+                        ctx.violation("%s, %d line(s): the unflagged line has no coordinates" % (fmt, n), payload, cls="unflagged-nan")
+                    ctx.case((fmt, n, pattern, interp), nontrivial=True, branch="flagged-shape/%s" % pattern)
+
+
 def run(ctx):
     rng = ctx.rng
     drv = []
+    flagged_shape_cases(ctx, rng)
     for k in range(ctx.n(150, 6000)):
         tie_case(ctx, rng, k, drv)
     for k in range(ctx.n(20, 400)):
